@@ -106,15 +106,19 @@ Valid(S, ty, v) ==
          [] OTHER -> FALSE
 
 \* ----------------------------------------------------------------- encoding
-RECURSIVE EncTy(_, _, _), EncFields(_, _, _, _), EncItems(_, _, _, _)
+RECURSIVE EncTy(_, _, _), EncFields(_, _, _, _), EncItems(_, _, _, _, _)
 EncFields(S, d, v, i) ==
   IF i > Len(d.fields) THEN <<>>
   ELSE LET f == d.fields[i] IN
        (IF IsTrue(f) \/ ~Present(f, v) THEN <<>> ELSE EncTy(S, f.ty, v[f.name])) \o EncFields(S, d, v, i + 1)
-EncItems(S, ty, v, i) == IF i > Len(v) THEN <<>> ELSE EncTy(S, ty, v[i]) \o EncItems(S, ty, v, i + 1)
+\* items lo..hi of v in order (split in halves: recursion depth log n, so that long vectors stay cheap for TLC)
+EncItems(S, ty, v, lo, hi) ==
+  IF lo > hi THEN <<>>
+  ELSE IF lo = hi THEN EncTy(S, ty, v[lo])
+  ELSE LET mid == (lo + hi) \div 2 IN EncItems(S, ty, v, lo, mid) \o EncItems(S, ty, v, mid + 1, hi)
 EncBoxed(S, d, v) == IdBytes(d.id) \o EncFields(S, d, v, 1)
 EncTy(S, ty, v) ==
-  IF IsVec(ty) THEN U32LE(Len(v)) \o EncItems(S, ty.vector, v, 1)
+  IF IsVec(ty) THEN U32LE(Len(v)) \o EncItems(S, ty.vector, v, 1, Len(v))
   ELSE CASE ty = "int"    -> BitsToLE(B!SBits(v, 32))
          [] ty = "long"   -> BitsToLE(B!SBits(v, 64))
          [] ty = "#"      -> BitsToLE(B!UBits(v, 32))
@@ -173,17 +177,22 @@ MinSize(S, ty, fuel) ==
          [] IsResult(S, ty) -> 4
          [] OTHER -> 0
 
-RECURSIVE DecTy(_, _, _, _), DecFields(_, _, _, _, _, _), DecItems(_, _, _, _, _, _)
+RECURSIVE DecTy(_, _, _, _), DecFields(_, _, _, _, _, _), DecItems(_, _, _, _, _)
 DecFields(S, d, b, p, i, acc) ==
   IF i > Len(d.fields) THEN DOk(acc, p)
   ELSE LET f == d.fields[i] IN
        IF IsTrue(f) \/ ~Present(f, acc) THEN DecFields(S, d, b, p, i + 1, acc)
        ELSE LET x == DecTy(S, f.ty, b, p) IN
             IF x.ok THEN DecFields(S, d, b, x.p, i + 1, acc @@ (f.name :> x.v)) ELSE DErr(p)
-DecItems(S, ty, b, p, n, acc) ==
-  IF n = 0 THEN DOk(acc, p)
-  ELSE LET x == DecTy(S, ty, b, p) IN
-       IF x.ok THEN DecItems(S, ty, b, x.p, n - 1, Append(acc, x.v)) ELSE DErr(p)
+\* n items one after the other starting at p (the second half starts where the first ended; recursion depth log n)
+DecItems(S, ty, b, p, n) ==
+  IF n = 0 THEN DOk(<<>>, p)
+  ELSE IF n = 1 THEN LET x == DecTy(S, ty, b, p) IN IF x.ok THEN DOk(<<x.v>>, x.p) ELSE DErr(p)
+  ELSE LET h == n \div 2
+           l == DecItems(S, ty, b, p, h) IN
+       IF ~l.ok THEN DErr(p)
+       ELSE LET r == DecItems(S, ty, b, l.p, n - h) IN
+            IF r.ok THEN DOk(l.v \o r.v, r.p) ELSE DErr(p)
 DecDecl(S, d, b, p) == DecFields(S, d, b, p, 1, "_" :> d.ctor)
 DecBoxedOneOf(S, decls, b, p) ==         \* decls: a set of declarations; the id read selects one
   IF ~Has(b, p, 4) THEN DErr(p)
@@ -196,7 +205,7 @@ DecTy(S, ty, b, p) ==
     ELSE LET n == b[p + 1] + 256 * b[p + 2] + 65536 * b[p + 3] + 16777216 * b[p + 4] IN
          \* early exit: n items need at least n * MinSize bytes (items of zero size are decoded one by one)
          IF MinSize(S, ty.vector, 6) > 0 /\ n > (Len(b) - (p + 4)) \div MinSize(S, ty.vector, 6) THEN DErr(p)
-         ELSE DecItems(S, ty.vector, b, p + 4, n, <<>>)
+         ELSE DecItems(S, ty.vector, b, p + 4, n)
   ELSE CASE ty = "int"    -> IF Has(b, p, 4) THEN DOk(B!SDec(LEToBits(Take(b, p, 4))), p + 4) ELSE DErr(p)
          [] ty = "long"   -> IF Has(b, p, 8) THEN DOk(B!SDec(LEToBits(Take(b, p, 8))), p + 8) ELSE DErr(p)
          [] ty = "#"      -> IF Has(b, p, 4) THEN DOk(BitsToDec(LEToBits(Take(b, p, 4))), p + 4) ELSE DErr(p)
